@@ -583,7 +583,16 @@ class Symbolic(
 
     if not path_value_pairs and raise_on_no_change:
       raise ValueError(self._error_message('There are no values to rebind.'))
-    updates = self._sym_rebind(path_value_pairs)
+    try:
+      updates = self._sym_rebind(path_value_pairs)
+    except Exception:
+      # Part of the batch may have been applied: do the structural bookkeeping
+      # (e.g. removing deletion placeholders from lists) for what was touched.
+      for path in path_value_pairs:
+        parent = path.parent.get(self) if path else None
+        if isinstance(parent, Symbolic):
+          parent._sync_children()  # pylint: disable=protected-access
+      raise
     if skip_notification is None:
       skip_notification = not flags.is_change_notification_enabled()
     if not skip_notification:
